@@ -1,1 +1,618 @@
-From Coq Require Import ZArith List.
+(* Serialising then parsing is the identity (up to the representation of integers, [canon]).
+   Layers: escape / unescape, integer printing / reading, tokens, then the recursive composite. *)
+From Coq Require Import ZArith List Bool Lia.
+Require Import ZifyBool.
+From Json Require Import JsonSpec JsonModel JsonProofsBase JsonProofsTotal.
+Import ListNotations.
+Local Open Scope Z_scope.
+
+(* ================= layer 1: appendEscapedString vs the string tokenizer ================= *)
+Definition nulfree (s : list Z) : Prop := Forall (fun c => c <> 0) s.
+
+Lemma str_ok_nulfree s : str_ok s = true -> nulfree s.
+Proof.
+  unfold str_ok, nulfree. rewrite forallb_forall, Forall_forall.
+  intros H c Hc. specialize (H c Hc). lia.
+Qed.
+
+Lemma str_step_close f l r acc : str_loop (S f) l (34 :: r) acc = Ok (l, r, rev acc).
+Proof. reflexivity. Qed.
+Lemma str_step_quote f l r acc : str_loop (S f) l (92 :: 34 :: r) acc = str_loop f l r (34 :: acc).
+Proof. reflexivity. Qed.
+Lemma str_step_backslash f l r acc : str_loop (S f) l (92 :: 92 :: r) acc = str_loop f l r (92 :: acc).
+Proof. reflexivity. Qed.
+Lemma str_step_n f l r acc : str_loop (S f) l (92 :: 110 :: r) acc = str_loop f l r (10 :: acc).
+Proof. reflexivity. Qed.
+Lemma str_step_r f l r acc : str_loop (S f) l (92 :: 114 :: r) acc = str_loop f l r (13 :: acc).
+Proof. reflexivity. Qed.
+Lemma str_step_plain f l c r acc :
+  c <> 0 -> c <> 13 -> c <> 10 -> c <> 92 -> c <> 34 ->
+  str_loop (S f) l (c :: r) acc = str_loop f l r (c :: acc).
+Proof.
+  intros. cbn [str_loop peek adv].
+  destruct (c =? 0) eqn:?; [lia|]. destruct (c =? 13) eqn:?; [lia|]. destruct (c =? 10) eqn:?; [lia|].
+  destruct (c =? 92) eqn:?; [lia|]. destruct (c =? 34) eqn:?; [lia|]. reflexivity.
+Qed.
+
+(* unescape (escape s) = s for every NUL-free byte string; the line counter does not move *)
+Lemma str_loop_escape s : forall f l rest acc, nulfree s -> (length s < f)%nat ->
+  str_loop f l (escape s ++ 34 :: rest) acc = Ok (l, rest, rev acc ++ s).
+Proof.
+  induction s as [|c t IH]; intros f l rest acc NF Hf.
+  - destruct f as [|f]; [cbn in Hf; lia|]. cbn [escape app]. rewrite str_step_close, app_nil_r. reflexivity.
+  - destruct f as [|f]; [lia|]. cbn [length] in Hf.
+    inversion NF as [|? ? Hc NFt]; subst.
+    assert (R : forall x, rev (x :: acc) ++ t = rev acc ++ x :: t).
+    { intros x. cbn [rev]. rewrite <- app_assoc. reflexivity. }
+    cbn [escape]. destruct (c =? 0) eqn:E0; [lia|].
+    destruct (c =? 34) eqn:E34.
+    { assert (c = 34) by lia. subst c. cbn [app]. rewrite str_step_quote, IH, R; auto. lia. }
+    destruct (c =? 92) eqn:E92.
+    { assert (c = 92) by lia. subst c. cbn [app]. rewrite str_step_backslash, IH, R; auto. lia. }
+    destruct (c =? 10) eqn:E10.
+    { assert (c = 10) by lia. subst c. cbn [app]. rewrite str_step_n, IH, R; auto. lia. }
+    destruct (c =? 13) eqn:E13.
+    { assert (c = 13) by lia. subst c. cbn [app]. rewrite str_step_r, IH, R; auto. lia. }
+    cbn [app]. rewrite str_step_plain, IH, R; auto; lia.
+Qed.
+
+Lemma escape_length s : (length s <= length (escape s))%nat.
+Proof.
+  induction s as [|c t IH]; [cbn; lia|]. cbn [escape].
+  destruct (c =? 0); [lia|].
+  destruct (c =? 34); [cbn [length]; lia|]. destruct (c =? 92); [cbn [length]; lia|].
+  destruct (c =? 10); [cbn [length]; lia|]. destruct (c =? 13); cbn [length]; lia.
+Qed.
+
+(* ================= layer 2: printf("%d"/"%lld") vs atoll ================= *)
+Definition dstep (a c : Z) : Z := 10 * a + (c - 48).
+Definition all_digits (ds : list Z) : Prop := Forall (fun c => is_digit c = true) ds.
+
+Lemma dec_digits_acc f : forall n acc, dec_digits f n acc = dec_digits f n [] ++ acc.
+Proof.
+  induction f as [|f IH]; intros n acc; [reflexivity|]. cbn [dec_digits].
+  destruct (n <? 10); [reflexivity|].
+  rewrite IH, (IH _ [_]), <- app_assoc. reflexivity.
+Qed.
+
+Lemma dec_digits_spec f : forall n, 0 <= n < 10 ^ Z.of_nat f -> (0 < f)%nat ->
+  all_digits (dec_digits f n []) /\ fold_left dstep (dec_digits f n []) 0 = n /\ dec_digits f n [] <> [].
+Proof.
+  induction f as [|f IH]; intros n Hn Hf; [lia|].
+  - cbn [dec_digits]. destruct (n <? 10) eqn:E.
+    + repeat split; [|cbn [fold_left]; unfold dstep; lia|discriminate].
+      constructor; [unfold is_digit; lia|constructor].
+    + rewrite dec_digits_acc.
+      assert (Hq : 0 <= n / 10 < 10 ^ Z.of_nat f).
+      { rewrite Nat2Z.inj_succ, Z.pow_succ_r in Hn by lia. split; [apply Z.div_pos; lia|].
+        apply Z.div_lt_upper_bound; lia. }
+      assert (Hf' : (0 < f)%nat).
+      { destruct f; [|lia]. cbn in Hq. assert (1 <= n / 10) by (apply Z.div_le_lower_bound; lia). lia. }
+      destruct (IH _ Hq Hf') as (D & V & NE). repeat split.
+      * apply Forall_app. split; [exact D|]. constructor; [|constructor].
+        unfold is_digit. pose proof (Z.mod_pos_bound n 10 ltac:(lia)). lia.
+      * rewrite fold_left_app, V. cbn [fold_left]. unfold dstep.
+        pose proof (Z.div_mod n 10 ltac:(lia)). lia.
+      * intros X. apply app_eq_nil in X. destruct X; discriminate.
+Qed.
+
+Lemma log2_fuel_ok n : 0 <= n -> n < 10 ^ Z.of_nat (S (Z.to_nat (Z.log2 n))).
+Proof.
+  intros Hn. rewrite Nat2Z.inj_succ, Z2Nat.id by apply Z.log2_nonneg.
+  destruct (Z.eq_dec n 0) as [->|Hnz]; [cbn; lia|].
+  pose proof (Z.log2_spec n ltac:(lia)) as [_ H2].
+  eapply Z.lt_le_trans; [exact H2|].
+  apply Z.pow_le_mono_l. pose proof (Z.log2_nonneg n). lia.
+Qed.
+
+Lemma digits_val_fold ds : forall a rest, all_digits ds ->
+  digits_val (ds ++ rest) a = digits_val rest (fold_left dstep ds a).
+Proof.
+  induction ds as [|c t IH]; intros a rest D; [reflexivity|].
+  inversion D as [|? ? Hc Dt]; subst. cbn [app digits_val fold_left]. rewrite Hc.
+  apply IH, Dt.
+Qed.
+
+Definition numch (c : Z) : bool := (c =? 45) || is_digit c.
+
+Lemma print_dec_shape z :
+  (0 <= z -> all_digits (print_dec z) /\ fold_left dstep (print_dec z) 0 = z /\ print_dec z <> []) /\
+  (z < 0 -> exists ds, print_dec z = 45 :: ds /\ all_digits ds /\ fold_left dstep ds 0 = - z /\ ds <> []).
+Proof.
+  unfold print_dec. split; intros Hz.
+  - destruct (z <? 0) eqn:E; [lia|]. apply dec_digits_spec; [|lia]. split; [lia|]. apply log2_fuel_ok. lia.
+  - destruct (z <? 0) eqn:E; [|lia]. eexists. split; [reflexivity|].
+    apply dec_digits_spec; [|lia]. split; [lia|]. apply log2_fuel_ok. lia.
+Qed.
+
+(* atoll (printf z) = z over the whole 64-bit range *)
+Lemma ref_atoll_print_dec z : int64_min <= z <= int64_max -> ref_atoll (print_dec z) = z.
+Proof.
+  intros R. destruct (print_dec_shape z) as [P N]. destruct (Z_lt_le_dec z 0) as [Hz|Hz].
+  - destruct (N Hz) as (ds & -> & D & V & _). unfold ref_atoll. cbn [Z.eqb Pos.eqb].
+    rewrite <- (app_nil_r ds), digits_val_fold by exact D. cbn [digits_val]. rewrite V.
+    unfold clamp64, int64_min, int64_max in *. destruct (- - z <? _) eqn:?; [lia|].
+    destruct (_ <? - - z) eqn:?; lia.
+  - destruct (P Hz) as (D & V & NE). destruct (print_dec z) as [|c t] eqn:Ep; [congruence|].
+    unfold ref_atoll. pose proof (Forall_inv D) as Hc. cbn beta in Hc.
+    destruct (c =? 45) eqn:E1; [unfold is_digit in Hc; lia|].
+    destruct (c =? 43) eqn:E2; [unfold is_digit in Hc; lia|].
+    rewrite <- (app_nil_r (c :: t)), digits_val_fold by exact D. cbn [digits_val]. rewrite V.
+    unfold clamp64, int64_min, int64_max in *. destruct (z <? _) eqn:?; [lia|].
+    destruct (_ <? z) eqn:?; lia.
+Qed.
+
+Lemma print_dec_numch z : Forall (fun c => numch c = true) (print_dec z) /\ print_dec z <> [].
+Proof.
+  destruct (print_dec_shape z) as [P N]. destruct (Z_lt_le_dec z 0) as [Hz|Hz].
+  - destruct (N Hz) as (ds & -> & D & _ & _). split; [|discriminate].
+    constructor; [reflexivity|]. eapply Forall_impl; [|exact D]. intros c Hc. cbn beta in Hc. unfold numch. rewrite Hc. apply orb_true_r.
+  - destruct (P Hz) as (D & _ & NE). split; [|exact NE].
+    eapply Forall_impl; [|exact D]. intros c Hc. cbn beta in Hc. unfold numch. rewrite Hc. apply orb_true_r.
+Qed.
+
+(* the byte after a number ends the scan *)
+Definition num_stop (rest : list Z) : Prop :=
+  let c := peek rest in
+  (c =? 69) || (c =? 101) || (c =? 45) || (c =? 43) || (c =? 46) || is_digit c = false.
+
+Lemma num_loop_scan ds : forall f rest acc isd,
+  Forall (fun c => numch c = true) ds -> num_stop rest -> (length ds < f)%nat ->
+  num_loop f (ds ++ rest) acc isd = Ok (rest, rev acc ++ ds, isd).
+Proof.
+  induction ds as [|c t IH]; intros f rest acc isd D ST Hf.
+  - destruct f as [|f]; [cbn in Hf; lia|]. cbn [app num_loop]. unfold num_stop in ST. cbn zeta in ST.
+    destruct ((peek rest =? 69) || (peek rest =? 101) || (peek rest =? 45) || (peek rest =? 43)) eqn:E1; [lia|].
+    destruct (peek rest =? 46) eqn:E2; [lia|].
+    destruct (is_digit (peek rest)) eqn:E3; [lia|]. rewrite app_nil_r. reflexivity.
+  - destruct f as [|f]; [lia|]. cbn [length] in Hf. inversion D as [|? ? Hc Dt]; subst.
+    cbn [app]. rewrite num_loop_first by exact Hc. rewrite IH by (auto; lia).
+    cbn [rev]. rewrite <- app_assoc. reflexivity.
+Qed.
+
+(* ================= layer 3: tokens ================= *)
+Definition ws_only (w : list Z) : Prop := Forall (fun c => c = 9 \/ c = 10 \/ c = 32) w.
+Fixpoint nlf (w : list Z) : Z :=
+  match w with [] => 0 | c :: t => (if c =? 10 then 1 else 0) + nlf t end.
+
+Lemma skip_ws w : forall f l r, ws_only w ->
+  skip_space (length w + f) l (w ++ r) = skip_space f (l + nlf w) r.
+Proof.
+  induction w as [|c t IH]; intros f l r W.
+  - cbn. f_equal. lia.
+  - inversion W as [|? ? Hc Wt]; subst. cbn [length app Nat.add skip_space peek adv nlf].
+    destruct (c =? 13) eqn:E13; [lia|]. destruct (c =? 10) eqn:E10.
+    + rewrite IH by exact Wt. f_equal; lia.
+    + destruct (is_space c) eqn:Es; [|unfold is_space in Es; lia].
+      rewrite IH by exact Wt. f_equal; lia.
+Qed.
+
+Lemma rt_ws w l r : ws_only w ->
+  read_token (mkPos l (w ++ r)) = read_token (mkPos (l + nlf w) r).
+Proof.
+  intros W. unfold read_token. cbn [p_line p_rest].
+  rewrite app_length. replace (S (length w + length r)) with (length w + S (length r))%nat by lia.
+  rewrite skip_ws by exact W. reflexivity.
+Qed.
+
+Lemma rt_nonspace l c t : is_space c = false ->
+  read_token (mkPos l (c :: t)) = token_at l (c :: t).
+Proof.
+  intros H. unfold read_token. cbn [p_line p_rest length skip_space peek].
+  unfold is_space in H.
+  destruct (c =? 13) eqn:?; [lia|]. destruct (c =? 10) eqn:?; [lia|].
+  unfold is_space. destruct (_ || _) eqn:?; [lia|]. reflexivity.
+Qed.
+
+Lemma rt_punct l c r : is_punct c = true ->
+  read_token (mkPos l (c :: r)) = Ok (mkPos l r, (c, JNull)).
+Proof.
+  intros H. rewrite rt_nonspace by (unfold is_punct, is_space in *; lia).
+  unfold token_at. cbn [peek adv]. destruct (c =? 0) eqn:?; [unfold is_punct in H; lia|].
+  rewrite H. reflexivity.
+Qed.
+
+Lemma rt_string l s r : nulfree s ->
+  read_token (mkPos l (esc_string s ++ r)) = Ok (mkPos l r, (34, JString s)).
+Proof.
+  intros NF. unfold esc_string. cbn [app]. rewrite <- app_assoc. cbn [app].
+  rewrite rt_nonspace by reflexivity. unfold token_at. cbn [peek adv Z.eqb Pos.eqb is_punct orb].
+  rewrite str_loop_escape; [reflexivity|exact NF|].
+  rewrite app_length. pose proof (escape_length s). lia.
+Qed.
+
+Lemma rt_null l r : read_token (mkPos l (lit_null ++ r)) = Ok (mkPos l r, (110, JNull)).
+Proof. cbn [lit_null app]. rewrite rt_nonspace by reflexivity. reflexivity. Qed.
+Lemma rt_true l r : read_token (mkPos l (lit_true ++ r)) = Ok (mkPos l r, (116, JBool true)).
+Proof. cbn [lit_true app]. rewrite rt_nonspace by reflexivity. reflexivity. Qed.
+Lemma rt_false l r : read_token (mkPos l (lit_false ++ r)) = Ok (mkPos l r, (102, JBool false)).
+Proof. cbn [lit_false app]. rewrite rt_nonspace by reflexivity. reflexivity. Qed.
+
+Lemma rt_num l z r : int64_min <= z <= int64_max -> num_stop r ->
+  read_token (mkPos l (print_dec z ++ r)) = Ok (mkPos l r, (35, classify_int z)).
+Proof.
+  intros R ST. destruct (print_dec_numch z) as [D NE].
+  destruct (print_dec z) as [|c t] eqn:Ep; [congruence|].
+  inversion D as [|? ? Hc Dt]; subst. unfold numch in Hc.
+  cbn [app]. rewrite rt_nonspace by (unfold is_space, is_digit in *; lia).
+  unfold token_at. cbn [peek].
+  destruct (c =? 0) eqn:?; [unfold is_digit in *; lia|].
+  destruct (is_punct c) eqn:?; [unfold is_punct, is_digit in *; lia|].
+  destruct (c =? 34) eqn:?; [unfold is_digit in *; lia|].
+  destruct (c =? 116) eqn:?; [unfold is_digit in *; lia|].
+  destruct (c =? 102) eqn:?; [unfold is_digit in *; lia|].
+  destruct (c =? 110) eqn:?; [unfold is_digit in *; lia|].
+  rewrite Hc. change (c :: t ++ r) with ((c :: t) ++ r).
+  rewrite num_loop_scan; [|exact D|exact ST|rewrite app_length; cbn [length]; lia].
+  cbn [bind rev app]. rewrite <- Ep, ref_atoll_print_dec by exact R. reflexivity.
+Qed.
+
+(* ================= layer 4: the recursive composite ================= *)
+(* induction principle for the nested tree type *)
+Section ValueInd.
+  Variable P : value -> Prop.
+  Hypothesis Hnull : P JNull.
+  Hypothesis Hbool : forall b, P (JBool b).
+  Hypothesis Hint : forall z, P (JInt z).
+  Hypothesis Hint64 : forall z, P (JInt64 z).
+  Hypothesis Hdouble : forall t, P (JDouble t).
+  Hypothesis Hstring : forall s, P (JString s).
+  Hypothesis Hlist : forall l, Forall P l -> P (JList l).
+  Hypothesis Hmap : forall m, Forall (fun kx => P (snd kx)) m -> P (JMap m).
+  Fixpoint value_ind2 (v : value) : P v :=
+    match v with
+    | JNull => Hnull
+    | JBool b => Hbool b
+    | JInt z => Hint z
+    | JInt64 z => Hint64 z
+    | JDouble t => Hdouble t
+    | JString s => Hstring s
+    | JList l => Hlist l ((fix go (l : list value) : Forall P l :=
+                             match l with
+                             | [] => Forall_nil _
+                             | x :: t => Forall_cons x (value_ind2 x) (go t)
+                             end) l)
+    | JMap m => Hmap m ((fix go (m : list (list Z * value)) : Forall (fun kx => P (snd kx)) m :=
+                           match m with
+                           | [] => Forall_nil _
+                           | kx :: t => Forall_cons kx (value_ind2 (snd kx)) (go t)
+                           end) m)
+    end.
+End ValueInd.
+
+(* ---------- the class, in Prop form ---------- *)
+Lemma bytes_eqb_eq a : forall b, bytes_eqb a b = true <-> a = b.
+Proof.
+  induction a as [|x a IH]; intros [|y b]; cbn [bytes_eqb]; split; intros H; try congruence; try discriminate.
+  - apply andb_true_iff in H as [H1 H2]. apply Z.eqb_eq in H1. apply IH in H2. congruence.
+  - injection H as -> ->. rewrite Z.eqb_refl. cbn. now apply IH.
+Qed.
+
+Lemma key_in_spec k m : key_in k m = true <-> In k (map fst m).
+Proof.
+  induction m as [|[k' x] t IH]; cbn [key_in map fst In]; [split; [discriminate|tauto]|].
+  rewrite orb_true_iff, bytes_eqb_eq, IH. split; intros [H|H]; auto.
+Qed.
+
+Lemma in_class_list l : in_class (JList l) = true -> Forall (fun x => in_class x = true) l.
+Proof.
+  induction l as [|x t IH]; intros H; [constructor|].
+  cbn [in_class] in H. apply andb_true_iff in H as [H1 H2]. constructor; [exact H1|]. apply IH. exact H2.
+Qed.
+
+Lemma in_class_map m : in_class (JMap m) = true ->
+  Forall (fun kx => nulfree (fst kx) /\ in_class (snd kx) = true) m /\ NoDup (map fst m).
+Proof.
+  induction m as [|[k x] t IH]; intros H; [split; constructor|].
+  cbn [in_class] in H. apply andb_true_iff in H as [H H4]. apply andb_true_iff in H as [H H3].
+  apply andb_true_iff in H as [H1 H2]. destruct (IH H4) as [F N]. split.
+  - constructor; [|exact F]. cbn [fst snd]. split; [now apply str_ok_nulfree|exact H2].
+  - cbn [map fst]. constructor; [|exact N]. rewrite <- key_in_spec. destruct (key_in k t); [discriminate|congruence].
+Qed.
+
+(* ---------- shapes of the emitted text ---------- *)
+Definition tabs (ind : list Z) : Prop := Forall (fun c => c = 9) ind.
+Definition nind (ind : list Z) : list Z := ind ++ [9].     (* newIndentation *)
+
+Lemma tabs_ws ind : tabs ind -> ws_only ind.
+Proof. apply Forall_impl. intros c ->. auto. Qed.
+
+Lemma ws_app a b : ws_only a -> ws_only b -> ws_only (a ++ b).
+Proof. intros. apply Forall_app. split; assumption. Qed.
+
+Lemma reassoc (w a b m z : list Z) : w ++ (a ++ b ++ m) ++ z = (w ++ a) ++ b ++ (m ++ z).
+Proof. rewrite <- !app_assoc. reflexivity. Qed.
+
+Lemma ws_lf : ws_only [10].
+Proof. constructor; [right; left; reflexivity|constructor]. Qed.
+Lemma ws_sp : ws_only [32].
+Proof. constructor; [right; right; reflexivity|constructor]. Qed.
+Lemma ws_lf_tabs ind : tabs ind -> ws_only (10 :: ind).
+Proof. intros H. constructor; [right; left; reflexivity|apply tabs_ws; exact H]. Qed.
+
+Lemma tabs_snoc ind : tabs ind -> tabs (nind ind).
+Proof. intros H. apply Forall_app. split; [exact H|repeat constructor]. Qed.
+
+Notation E ind := (fun x => emit x (nind ind)).
+
+Lemma emit_list_cons x t ind :
+  emit (JList (x :: t)) ind = 91 :: 10 :: emit_items (E ind) (nind ind) (x :: t) ++ 10 :: ind ++ [93].
+Proof. reflexivity. Qed.
+
+Lemma emit_map_cons kx t ind :
+  emit (JMap (kx :: t)) ind = 123 :: 10 :: emit_members (E ind) (nind ind) (kx :: t) ++ 10 :: ind ++ [125].
+Proof. reflexivity. Qed.
+
+Lemma emit_nonempty v ind : in_class v = true -> (1 <= length (emit v ind))%nat.
+Proof.
+  destruct v; intros H; try discriminate.
+  - cbn. lia.
+  - destruct b; cbn; lia.
+  - cbn [emit]. destruct (print_dec_numch z) as [_ NE]. destruct (print_dec z); [congruence|cbn; lia].
+  - cbn [emit]. destruct (print_dec_numch z) as [_ NE]. destruct (print_dec z); [congruence|cbn; lia].
+  - cbn. lia.
+  - destruct l; [cbn; lia|rewrite emit_list_cons; cbn [length]; lia].
+  - destruct m; [cbn; lia|rewrite emit_map_cons; cbn [length]; lia].
+Qed.
+
+(* ---------- bind bookkeeping ---------- *)
+Lemma bind_assoc_pair {A B C D} (x : res (A * B)) (k1 : A -> B -> res C) (k2 : C -> res D) :
+  bind x (fun '(a, b) => bind (k1 a b) k2) = bind (bind x (fun '(a, b) => k1 a b)) k2.
+Proof. destruct x as [[a b]| | |]; reflexivity. Qed.
+
+Lemma bind_ok_pair {A B C D} (x : res (A * B)) (c : C) (k2 : C * A * B -> res D) :
+  bind (bind x (fun '(a, b) => Ok (c, a, b))) k2 = bind x (fun '(a, b) => k2 (c, a, b)).
+Proof. destruct x as [[a b]| | |]; reflexivity. Qed.
+
+(* the statement proved by induction on the tree *)
+Definition RT (v : value) : Prop :=
+  forall ind l rest f, in_class v = true -> tabs ind -> num_stop rest ->
+    (length (emit v ind) <= f)%nat ->
+    exists l', bind (read_token (mkPos l (emit v ind ++ rest))) (fun '(p, t) => parse_value f p t)
+             = bind (read_token (mkPos l' rest)) (fun '(p', t') => Ok (canon v, p', t')).
+
+(* the first token of an emitted value is never a closing bracket (the loops go on) *)
+Lemma first_token v ind l rest : in_class v = true -> num_stop rest ->
+  exists p t, read_token (mkPos l (emit v ind ++ rest)) = Ok (p, t) /\ fst t <> 93 /\ fst t <> 125.
+Proof.
+  intros C ST. destruct v; try discriminate.
+  - cbn [emit]. rewrite rt_null. do 2 eexists. split; [reflexivity|cbn; lia].
+  - destruct b; cbn [emit]; [rewrite rt_true|rewrite rt_false]; do 2 eexists; (split; [reflexivity|cbn; lia]).
+  - cbn [emit]. rewrite rt_num; [|cbn in C; unfold int64_min, int64_max; lia|exact ST].
+    do 2 eexists. split; [reflexivity|cbn; lia].
+  - cbn [emit]. rewrite rt_num; [|cbn in C; unfold int64_min, int64_max; lia|exact ST].
+    do 2 eexists. split; [reflexivity|cbn; lia].
+  - cbn [emit]. rewrite rt_string by (apply str_ok_nulfree; exact C).
+    do 2 eexists. split; [reflexivity|cbn; lia].
+  - destruct l0.
+    + cbn [emit app]. rewrite rt_punct by reflexivity. do 2 eexists. split; [reflexivity|cbn; lia].
+    + rewrite emit_list_cons. cbn [app]. rewrite rt_punct by reflexivity.
+      do 2 eexists. split; [reflexivity|cbn; lia].
+  - destruct m.
+    + cbn [emit app]. rewrite rt_punct by reflexivity. do 2 eexists. split; [reflexivity|cbn; lia].
+    + rewrite emit_map_cons. cbn [app]. rewrite rt_punct by reflexivity.
+      do 2 eexists. split; [reflexivity|cbn; lia].
+Qed.
+
+Lemma num_stop_lf r : num_stop (10 :: r).
+Proof. reflexivity. Qed.
+Lemma num_stop_comma r : num_stop (44 :: r).
+Proof. reflexivity. Qed.
+
+Lemma scalar_case v k ind l rest f :
+  read_token (mkPos l (emit v ind ++ rest)) = Ok (mkPos l rest, (k, canon v)) ->
+  is_scalar_tok k = true -> (1 <= f)%nat ->
+  exists l', bind (read_token (mkPos l (emit v ind ++ rest))) (fun '(p, t) => parse_value f p t)
+           = bind (read_token (mkPos l' rest)) (fun '(p', t') => Ok (canon v, p', t')).
+Proof.
+  intros R K Hf. exists l. rewrite R. cbn [bind]. destruct f as [|f]; [lia|].
+  cbn [parse_value fst snd]. rewrite K. reflexivity.
+Qed.
+
+(* ---------- parseArray over the emitted elements ---------- *)
+Lemma arr_items ind rest : tabs ind -> forall xs, xs <> [] ->
+  Forall (fun x => in_class x = true /\ RT x) xs ->
+  forall acc w l f, ws_only w ->
+    (length (emit_items (E ind) (nind ind) xs) + 1 <= f)%nat ->
+    exists l',
+      bind (read_token (mkPos l (w ++ emit_items (E ind) (nind ind) xs ++ 10 :: ind ++ 93 :: rest)))
+           (fun '(p, t) => arr_loop f p t acc)
+      = bind (read_token (mkPos l' rest)) (fun '(p', t') => Ok (JList (rev acc ++ map canon xs), p', t')).
+Proof.
+  intros TI. assert (TN : tabs (nind ind)) by (apply tabs_snoc; exact TI).
+  induction xs as [|x t IHt]; intros NE F acc w l f W Hf; [congruence|].
+  inversion F as [|? ? [Cx RTx] Ft]; subst. clear F NE.
+  cbn [emit_items] in *. rewrite reassoc.
+  match goal with |- context[emit x (nind ind) ++ ?r] => set (R := r) end.
+  assert (NSR : num_stop R) by (subst R; destruct t; reflexivity).
+  rewrite rt_ws by (apply ws_app; [exact W|apply tabs_ws; exact TN]).
+  set (ni := nind ind) in *. set (l1 := l + nlf (w ++ ni)).
+  destruct (first_token x ni l1 R Cx NSR) as (p & t0 & RT0 & N93 & _).
+  rewrite !app_length in Hf. cbn [length] in Hf.
+  destruct f as [|f]; [lia|].
+  destruct (RTx ni l1 R f Cx TN NSR ltac:(lia)) as (l2 & EQ). rewrite RT0 in EQ |- *. cbn [bind] in EQ |- *.
+  cbn [arr_loop]. destruct (fst t0 =? 93) eqn:E93; [lia|]. rewrite EQ. clear EQ RT0.
+  rewrite bind_ok_pair. subst R. destruct t as [|y t'].
+  - (* last element: "\n" indentation "]" *)
+    cbn [app]. change (10 :: ind ++ 93 :: rest) with ((10 :: ind) ++ 93 :: rest).
+    rewrite rt_ws by (apply ws_lf_tabs; exact TI).
+    rewrite rt_punct by reflexivity. cbn [bind fst snd Z.eqb Pos.eqb].
+    eexists. cbn [map rev]. reflexivity.
+  - (* ",\n" and the next element *)
+    cbn [app]. rewrite rt_punct by reflexivity. cbn [bind fst snd Z.eqb Pos.eqb negb].
+    destruct (IHt ltac:(discriminate) Ft (canon x :: acc) [10] l2 f ws_lf) as (l3 & EQ).
+    { rewrite app_length in Hf. cbn [length] in Hf. lia. }
+    exists l3. cbn [app] in EQ. rewrite EQ.
+    cbn [map rev]. rewrite <- app_assoc. reflexivity.
+Qed.
+
+(* ---------- parseObject over the emitted members ---------- *)
+Lemma map_upsert_fresh k v acc : ~ In k (map fst acc) -> map_upsert k v acc = acc ++ [(k, v)].
+Proof.
+  induction acc as [|[k' v'] t IH]; intros H; [reflexivity|].
+  cbn [map_upsert]. destruct (bytes_eqb k k') eqn:Eb.
+  - apply bytes_eqb_eq in Eb. subst. exfalso. apply H. left. reflexivity.
+  - cbn [app]. f_equal. apply IH. intros X. apply H. right. exact X.
+Qed.
+
+Lemma reassoc2 (w a b c m z : list Z) :
+  w ++ (a ++ b ++ [58; 32] ++ c ++ m) ++ z = (w ++ a) ++ b ++ 58 :: [32] ++ c ++ (m ++ z).
+Proof. rewrite <- !app_assoc. reflexivity. Qed.
+
+Definition canon_member (kx : list Z * value) : list Z * value := (fst kx, canon (snd kx)).
+
+Lemma obj_items ind rest : tabs ind -> forall m, m <> [] ->
+  Forall (fun kx => nulfree (fst kx) /\ in_class (snd kx) = true /\ RT (snd kx)) m ->
+  NoDup (map fst m) ->
+  forall acc w l f, ws_only w ->
+    (forall k, In k (map fst m) -> ~ In k (map fst acc)) ->
+    (length (emit_members (E ind) (nind ind) m) + 1 <= f)%nat ->
+    exists l',
+      bind (read_token (mkPos l (w ++ emit_members (E ind) (nind ind) m ++ 10 :: ind ++ 125 :: rest)))
+           (fun '(p, t) => obj_loop f p t acc)
+      = bind (read_token (mkPos l' rest)) (fun '(p', t') => Ok (JMap (acc ++ map canon_member m), p', t')).
+Proof.
+  intros TI. assert (TN : tabs (nind ind)) by (apply tabs_snoc; exact TI).
+  induction m as [|[k x] t IHt]; intros NE F ND acc w l f W FR Hf; [congruence|].
+  inversion F as [|? ? (NFk & Cx & RTx) Ft]; subst. clear F NE. cbn [fst snd] in *.
+  inversion ND as [|? ? NIk NDt]; subst. clear ND.
+  cbn [emit_members fst snd] in *. rewrite reassoc2.
+  match goal with |- context[emit x (nind ind) ++ ?r] => set (R := r) end.
+  assert (NSR : num_stop R) by (subst R; destruct t; reflexivity).
+  rewrite rt_ws by (apply ws_app; [exact W|apply tabs_ws; exact TN]).
+  set (ni := nind ind) in *. set (l1 := l + nlf (w ++ ni)).
+  rewrite rt_string by exact NFk. cbn [bind].
+  rewrite !app_length in Hf. cbn [length] in Hf.
+  destruct f as [|f]; [lia|].
+  cbn [obj_loop fst snd key_of Z.eqb Pos.eqb negb].
+  rewrite rt_punct by reflexivity. cbn [bind fst snd Z.eqb Pos.eqb negb].
+  rewrite rt_ws by exact ws_sp.
+  rewrite bind_assoc_pair.
+  destruct (RTx ni (l1 + nlf [32]) R f Cx TN NSR ltac:(lia)) as (l2 & EQ). rewrite EQ. clear EQ.
+  rewrite bind_ok_pair. subst R.
+  assert (FRk : ~ In k (map fst acc)) by (apply FR; left; reflexivity).
+  destruct t as [|[k' y] t'].
+  - cbn [app]. change (10 :: ind ++ 125 :: rest) with ((10 :: ind) ++ 125 :: rest).
+    rewrite rt_ws by (apply ws_lf_tabs; exact TI).
+    rewrite rt_punct by reflexivity. cbn [bind fst snd Z.eqb Pos.eqb].
+    eexists. rewrite map_upsert_fresh by exact FRk. reflexivity.
+  - cbn [app]. rewrite rt_punct by reflexivity. cbn [bind fst snd Z.eqb Pos.eqb negb].
+    rewrite map_upsert_fresh by exact FRk.
+    destruct (IHt ltac:(discriminate) Ft NDt (acc ++ [(k, canon x)]) [10] l2 f ws_lf) as (l3 & EQ).
+    { intros k2 Hk2. rewrite map_app, in_app_iff. cbn [map fst In]. intros [X|[X|[]]].
+      - apply (FR k2); [right; exact Hk2|exact X].
+      - subst k2. apply NIk. exact Hk2. }
+    { rewrite app_length in Hf. cbn [length] in Hf. lia. }
+    exists l3. cbn [app] in EQ. rewrite EQ. cbn [map]. rewrite <- app_assoc. reflexivity.
+Qed.
+
+(* ---------- every tree of the class ---------- *)
+Lemma fits_same z : fits_int32 z = fits32 z.
+Proof. reflexivity. Qed.
+
+Lemma RT_all v : RT v.
+Proof.
+  induction v using value_ind2; intros ind ln rest f C TI ST Hf;
+    pose proof (emit_nonempty _ ind C) as Hne.
+  - apply (scalar_case JNull 110); [apply rt_null|reflexivity|lia].
+  - destruct b.
+    + apply (scalar_case (JBool true) 116); [apply rt_true|reflexivity|lia].
+    + apply (scalar_case (JBool false) 102); [apply rt_false|reflexivity|lia].
+  - apply (scalar_case (JInt z) 35); [|reflexivity|lia].
+    cbn [emit canon]. rewrite rt_num; [|cbn in C; unfold int64_min, int64_max; lia|exact ST].
+    unfold classify_int. cbn [in_class] in C. unfold fits_int32. rewrite C. reflexivity.
+  - apply (scalar_case (JInt64 z) 35); [|reflexivity|lia].
+    cbn [emit canon]. rewrite rt_num; [|cbn in C; unfold int64_min, int64_max; lia|exact ST].
+    unfold classify_int. rewrite fits_same. reflexivity.
+  - discriminate.
+  - apply (scalar_case (JString s) 34); [|reflexivity|lia].
+    cbn [emit canon]. apply rt_string. apply str_ok_nulfree. exact C.
+  - (* lists *)
+    destruct l as [|x t].
+    + exists ln. cbn [emit app canon map]. rewrite rt_punct by reflexivity. cbn [bind].
+      destruct f as [|[|f]]; [cbn in Hf; lia|cbn in Hf; lia|].
+      cbn [parse_value fst snd is_scalar_tok Z.eqb Pos.eqb orb].
+      rewrite rt_punct by reflexivity. cbn [bind arr_loop fst snd Z.eqb Pos.eqb rev]. reflexivity.
+    + rewrite emit_list_cons in Hf |- *. cbn [app length] in Hf |- *.
+      rewrite rt_punct by reflexivity. cbn [bind]. destruct f as [|f]; [lia|].
+      cbn [parse_value fst snd is_scalar_tok Z.eqb Pos.eqb orb].
+      rewrite <- app_assoc. cbn [app]. rewrite <- app_assoc. cbn [app].
+      rewrite !app_length in Hf. cbn [length] in Hf.
+      destruct (arr_items ind rest TI (x :: t) ltac:(discriminate)) with (acc := @nil value) (w := [10]) (l := ln) (f := f)
+        as (l' & EQ).
+      * apply in_class_list in C. rewrite Forall_forall in *. intros y Hy. split; [apply C|apply H]; exact Hy.
+      * exact ws_lf.
+      * lia.
+      * exists l'. cbn [app] in EQ. rewrite EQ. reflexivity.
+  - (* maps *)
+    destruct m as [|kx t].
+    + exists ln. cbn [emit app canon map]. rewrite rt_punct by reflexivity. cbn [bind].
+      destruct f as [|[|f]]; [cbn in Hf; lia|cbn in Hf; lia|].
+      cbn [parse_value fst snd is_scalar_tok Z.eqb Pos.eqb orb].
+      rewrite rt_punct by reflexivity. cbn [bind obj_loop fst snd Z.eqb Pos.eqb]. reflexivity.
+    + rewrite emit_map_cons in Hf |- *. cbn [app length] in Hf |- *.
+      rewrite rt_punct by reflexivity. cbn [bind]. destruct f as [|f]; [lia|].
+      cbn [parse_value fst snd is_scalar_tok Z.eqb Pos.eqb orb].
+      rewrite <- app_assoc. cbn [app]. rewrite <- app_assoc. cbn [app].
+      rewrite !app_length in Hf. cbn [length] in Hf.
+      destruct (in_class_map _ C) as [FC ND].
+      destruct (obj_items ind rest TI (kx :: t) ltac:(discriminate)) with (acc := @nil (list Z * value)) (w := [10]) (l := ln) (f := f)
+        as (l' & EQ).
+      * rewrite Forall_forall in *. intros y Hy. destruct (FC y Hy). repeat split; auto.
+      * exact ND.
+      * exact ws_lf.
+      * intros k _ [].
+      * lia.
+      * exists l'. cbn [app] in EQ. rewrite EQ. reflexivity.
+Qed.
+
+(* ---------- Json::parse (Json::toString v) ---------- *)
+Lemma parse_to_string v : in_class v = true -> parse (to_string v) = POk (canon v).
+Proof.
+  intros C. unfold parse, to_string.
+  destruct (RT_all v [] 1 [10] (parse_fuel (emit v [] ++ [10])) C ltac:(constructor) (num_stop_lf [])) as (l' & EQ).
+  { unfold parse_fuel. rewrite app_length. lia. }
+  rewrite EQ. reflexivity.
+Qed.
+
+(* the tree read back is equal to the original (integers by value) *)
+Lemma bytes_eqb_refl a : bytes_eqb a a = true.
+Proof. now apply bytes_eqb_eq. Qed.
+
+Lemma value_eq_canon v : value_eq v (canon v) = true.
+Proof.
+  induction v using value_ind2; cbn [canon value_eq]; try reflexivity.
+  - apply eqb_reflx.
+  - apply Z.eqb_refl.
+  - destruct (fits32 z); cbn [value_eq]; apply Z.eqb_refl.
+  - apply bytes_eqb_refl.
+  - apply bytes_eqb_refl.
+  - induction H as [|x t Hx Ht IH]; [reflexivity|]. cbn [map]. rewrite Hx. exact IH.
+  - induction H as [|[k x] t Hx Ht IH]; [reflexivity|]. cbn [map fst snd] in *.
+    rewrite bytes_eqb_refl, Hx. exact IH.
+Qed.
+
+Lemma parse_to_string_eq v : in_class v = true ->
+  exists v', parse (to_string v) = POk v' /\ value_eq v v' = true.
+Proof.
+  intros C. exists (canon v). split; [now apply parse_to_string|apply value_eq_canon].
+Qed.
+
+(* trees whose 64-bit integers do not fit 32 bits come back identical *)
+Fixpoint canonical (v : value) : bool :=
+  match v with
+  | JInt64 z => negb (fits32 z)
+  | JList l => forallb canonical l
+  | JMap m => forallb (fun kx => canonical (snd kx)) m
+  | _ => true
+  end.
+
+Lemma canon_canonical v : canonical v = true -> canon v = v.
+Proof.
+  induction v using value_ind2; cbn [canonical canon]; intros C; try reflexivity.
+  - destruct (fits32 z); [discriminate|reflexivity].
+  - f_equal. induction H as [|x t Hx Ht IH]; [reflexivity|]. cbn [forallb map] in *.
+    apply andb_true_iff in C as [C1 C2]. rewrite Hx, IH; auto.
+  - f_equal. induction H as [|[k x] t Hx Ht IH]; [reflexivity|]. cbn [forallb map fst snd] in *.
+    apply andb_true_iff in C as [C1 C2]. rewrite Hx, IH; auto.
+Qed.
